@@ -830,7 +830,11 @@ def _default_mode_case(binary, hooks, fs, dm, label, letters, H, out):
             c.ping("o")
             c.send("WALLOPS :to the audience")
             c.ping("w")
-            gotw = any(m.verb == "WALLOPS" for m in b.ping("x"))
+            # b's copy travels through b's own queue; a message b sends to itself queues up behind it (a PING would not:
+            # a connection's loop serves its queue and its socket in no fixed order)
+            b.send("PRIVMSG dmb :settle")
+            gotw = any(m.verb == "WALLOPS" for m in
+                       b.read_until(lambda m: m.verb == "PRIVMSG" and m.params[-1:] == ["settle"], 6.0))
             out.append(("%s: WALLOPS reaches a new user %s" % (label, "" if "wallops" in fs else "not"), gotw == ("wallops" in fs)))
             # they leave: the counters come back, nobody is left behind, the server still serves
             a.close()
